@@ -38,6 +38,8 @@ def main(argv):
         mod = importlib.import_module(f"harness.props.{pid.lower()}")
         ctx.rule = getattr(mod, "RULE", "")
         common.run_gate(ctx)
+        if not replay:
+            common.source_drift(ctx)
         if not common.DRIVER.exists():
             raise GateError("gmdriver not built: " + ctx.gate.get("build_log", ""))
 
@@ -58,7 +60,7 @@ def main(argv):
 
         def extended():
             # disagreeing inputs first (already evaluated), then 10x budget, then edge streams
-            ctx.budget_scale = 10.0
+            ctx.budget_scale = max(10.0, ctx.budget_scale)
             ctx.rng.seed(f"{pid}-{seed}-extended")
             drive(mod.generate(ctx))
 
